@@ -20,6 +20,8 @@ mod git_commit_parser;
 mod pos_conv;
 
 mod c06;
+mod c11;
+mod c12;
 mod c15;
 mod c19;
 mod checks;
